@@ -219,6 +219,22 @@ GsBaseMsr == << 257, 49152, 0, 0 >>
 Check(e) ==
     CASE e.op = "port_block" -> PortBlockOK(e)
       [] e.op = "reg" -> RegOK(e)
+      [] e.op = "pcid_new" -> e.ok = (IF e.x < 4096 THEN 1 ELSE 0)
+      [] e.op = "reg_seq" ->
+            LET m == e.mask  a == e.p[1]  b == e.p[2]
+            IN CASE e.api = "Cr4::update;Cr4::update" ->
+                      LET v1 == UpdateVal(e.pre, m, a, ZeroW)
+                          v2 == UpdateVal(v1, m, b, ZeroW)
+                      IN e.r = << Modelled(e.pre, m), Modelled(v1, m) >> /\ e.post = v2
+                           /\ WrittenVals(e.instrs) = << v1, v2 >>
+                 [] e.api = "Efer::update;Efer::update" ->
+                      LET v1 == UpdateVal(e.pre, m, a, ZeroW)
+                          v2 == UpdateVal(v1, m, ZeroW, b)
+                      IN e.r = << Modelled(e.pre, m), Modelled(v1, m) >> /\ e.post = v2
+                           /\ WrittenVals(e.instrs) = << v1, v2 >>
+                 [] e.api = "Cr0::read_raw;Cr0::write_raw;Cr0::read_raw;Cr0::read" ->
+                      e.r = << e.pre, a, Modelled(a, m) >> /\ e.post = a
+                 [] OTHER -> FALSE
       [] e.op = "pat_default" -> e.v = << 1030, 7, 1030, 7 >>     \* power-on PAT: WB WT UC- UC WB WT UC- UC
       [] e.op = "seg_base_msr" ->
             /\ e.r = e.want /\ Len(e.instrs) = 2
